@@ -1002,13 +1002,15 @@ The what argument tells us what sort of state is expected (allowed values are de
 
         # Hack around Product.getTable() slowness, by internally caching Product instances
         # FIXME: Should be removed once the Product.getTable() bottleneck is resolved
+        # (two stacks may declare the same name, version and flavor: the stack is part of the key)
+        cacheKey = (product, getattr(product, "db", None))
         try:
-            product = self._productCache[product]
+            product = self._productCache[cacheKey]
         except AttributeError:
             self._productCache = dict()
-            self._productCache[product] = product
+            self._productCache[cacheKey] = product
         except KeyError:
-            self._productCache[product] = product
+            self._productCache[cacheKey] = product
 
         return [product, vroReason]
 
